@@ -103,4 +103,18 @@ Proof.
   - exact (tr_causal NO Sb eq_refl).
   - exact tr_indep.
 Qed.
+
+Theorem atr_batch_is_causal (ds more : list cd) (r : store) :
+  Forall (fresh NO Pa) (ds ++ more) -> Forall (fresh NO Sb) (ds ++ more) -> calculate NO Pa (ds ++ more) = Ok r ->
+  exists mid tl, calculate NO Pa ds = Ok mid /\ r = mid ++ tl.
+Proof.
+  intros HP HS Hr.
+  eapply (composite_batch_is_causal NO Pa Sb) with (calcP := pure_calc NO Pa) (calcS := pure_calc NO Sb); try eassumption.
+  all: try reflexivity.
+  all: try (split; reflexivity).
+  - exact atr_pure.
+  - exact (tr_pure NO Sb eq_refl).
+  - exact atr_causal.
+  - exact (tr_causal NO Sb eq_refl).
+Qed.
 End ATR.
